@@ -94,3 +94,25 @@ Theorem renamed_groups_distinct : forall kerning groups glyphSet k g r1 r2,
   NoDup (map fst r1) /\ NoDup (map fst r2).
 Proof. exact ProofsKerning.renamed_groups_distinct. Qed.
 Print Assumptions renamed_groups_distinct.
+
+(* ---- the conversion keeps every kerning value (ProofsKernVal.v).  The proof first needed a side condition -- no kerning entry
+   that is not itself renamed bears one of the new group names -- and the real code failed exactly there (a glyph called
+   "public.kern1.A" in a UFO 2 source lost its kerning to the renamed group "@MMK_L_A"): defect F22, repaired in /repo (the names
+   already used on that side of the kerning pairs are taken into account).  With the repaired conversion: *)
+From FV Require C19.ProofsKernVal.
+Theorem new_names_not_kerning_keys : forall kerning groups glyphSet k g r1 r2,
+  ModelKerning.convert kerning groups glyphSet = Ok (k, g, r1, r2) ->
+  (forall v, In v (map snd r1) -> ~ In v (map fst kerning)) /\
+  (forall v, In v (map snd r2) -> ~ In v (flat_map (fun row => map fst (snd row)) kerning)).
+Proof. exact ProofsKerning.new_names_not_kerning_keys. Qed.
+Print Assumptions new_names_not_kerning_keys.
+
+(* a kerning that is a dictionary of dictionaries keeps every value: the pair (first, second) is found under the renamed names *)
+Theorem convert_keeps_every_value : forall kerning groups glyphSet k g r1 r2 first row second value,
+  ModelKerning.convert kerning groups glyphSet = Ok (k, g, r1, r2) ->
+  NoDup (map fst kerning) -> (forall f' row', In (f', row') kerning -> NoDup (map fst row')) ->
+  ModelKerning.assoc_name first kerning = Some row -> ModelKerning.assoc_name second row = Some value ->
+  exists row', ModelKerning.assoc_name (ModelKerning.renamed r1 first) k = Some row' /\
+               ModelKerning.assoc_name (ModelKerning.renamed r2 second) row' = Some value.
+Proof. exact ProofsKernVal.convert_keeps_every_value. Qed.
+Print Assumptions convert_keeps_every_value.
